@@ -3,6 +3,7 @@ package main
 // Evaluation of contract expressions to symbolic values, in a given program state.
 
 import (
+	"golang.org/x/tools/go/ssa"
 	"fmt"
 	"go/types"
 	"math/big"
@@ -757,11 +758,30 @@ func (e *Env) call(n *Node, hint *Sym) *Sym {
 		}
 		out := &Sym{L: []*Term{bvResize(t, 128, isSigned(v))}}
 		return out
+	case "global":
+		// global("pkg.name"): the address of a package-level variable
+		nm := n.Args[0].Name
+		i := strings.LastIndex(nm, ".")
+		if i < 0 {
+			panic("global: need pkg.name")
+		}
+		pkg, vn := nm[:i], nm[i+1:]
+		for _, p := range e.x.ld.prog.AllPackages() {
+			pp := p.Pkg.Path()
+			if pp == pkg || pp == strings.TrimSuffix(modPrefix, "/")+"/"+pkg {
+				if g, ok := p.Members[vn].(*ssa.Global); ok {
+					return &Sym{T: g.Type(), L: []*Term{e.x.globalRef(g)}}
+				}
+			}
+		}
+		panic("global: no package variable " + nm)
 	case "asptr":
 		// asptr(x, "pkg.Type"): view the interface/ref value x as a *pkg.Type
 		v := e.eval(n.Args[0], nil)
 		t := e.x.typeByName(n.Args[1].Name)
-		return &Sym{T: types.NewPointer(t), L: []*Term{v.term()}}
+		pt := types.NewPointer(t)
+		// an interface holding the typed nil of *T yields nil, as the type assertion does
+		return &Sym{T: pt, L: []*Term{mkIte(mkEq(v.term(), e.x.typedNil(pt)), mkInt64(0), v.term())}}
 	case "ifield":
 		// ifield(x, "pkg.Type", "Field"): field of the struct value boxed in interface value x
 		v := e.eval(n.Args[0], nil)
